@@ -30,3 +30,45 @@ def run_shards(binary, d, driver_args, ncases, module, cfg, prefix, nshards=None
             return tp, cnt, r
         jobs.append(job)
     return vlib.parallel(jobs, nproc=min(vlib.NCPU, 12))
+
+
+def drive_marked(run, binary, d, base_args, first, n, tag, what, shape_of_crash, max_crashes=40, timeout=1200):
+    """Runs a driver that writes the case being executed to a marker file (-marker). If the real code kills the
+    process (panic in a goroutine, fatal error), the crash is reported as behaviour of the real code for that
+    case and the driver is restarted behind it. Returns the trace files written."""
+    import json
+    outs = []
+    marker = os.path.join(d, "marker-%s" % tag)
+    end = first + n
+    crashes = 0
+    while first < end:
+        outp = os.path.join(d, "%s-%d.ndjson" % (tag, len(outs)))
+        p = vlib.run_driver(binary, list(base_args) + ["-n", end - first, "-first", first, "-marker", marker, "-out", outp], timeout=timeout, check=False)
+        outs.append(outp)
+        if p.returncode == 0:
+            break
+        try:
+            m = json.loads(open(marker).read() or "null")
+        except Exception:
+            m = None
+        if not m:
+            raise vlib.Inconclusive("%s driver died without naming a case: rc=%d %s" % (what, p.returncode, (p.stderr or "")[:800]))
+        stderr = p.stderr or ""
+        i = stderr.find("panic:")
+        if i < 0:
+            i = stderr.find("fatal error:")
+        panic = stderr[i:][:400] if i >= 0 else stderr[:400]
+        site = ""
+        for ln in stderr[i:].splitlines() if i >= 0 else []:
+            if "/repo/" in ln or "itchio/wharf" in ln and ".go:" in ln:
+                site = ln.strip().split(" ")[0]
+                break
+        shape = {"crash": True, "site": site.replace(vlib.REPO, "").lstrip("/")}
+        shape.update(shape_of_crash(m, stderr))
+        run.violation(shape, {"case": m, "panic": panic, "site": site, "kind": what, "seed": run.seed},
+                      "the real code crashed the process (%s at %s) on %s" % (panic.splitlines()[0] if panic else "rc=%d" % p.returncode, site, json.dumps(m)[:300]))
+        crashes += 1
+        if crashes > max_crashes:
+            raise vlib.Inconclusive("%s: more than %d crashes of the real code" % (what, max_crashes))
+        first = m["id"] + 1
+    return outs
